@@ -23,9 +23,9 @@ man = dict(
                                  "states/cases that a Go driver replays into the real library, and judges every "
                                  "recorded real call with a trace-monitor spec"),
              dict(name="tlc-growth-families", path="lib/grow.py", serves_properties=[],
-                  kind_free_text="bin/grow G01|G02|G03: parts of the specification that cover behaviour outside the listed "
+                  kind_free_text="bin/grow G01|G02|G03|G04: parts of the specification that cover behaviour outside the listed "
                                  "properties (shared-type soft resources with a stateful trace spec, plain collections, "
-                                 "NewRequest); they decide no property and print OBSERVATION / DIVERGENCE lines only "
+                                 "NewRequest, error values); they decide no property and print OBSERVATION / DIVERGENCE lines only "
                                  "(DESIGN.md section 13)")],
     checks=[], not_applicable=[],
     notes="bin/check <ID> <quick|thorough>; exit 0/1/2 = held / reproduced unlisted violation / infrastructure. "
